@@ -26,6 +26,10 @@ Families (all members visited):
            in a freshly reloaded ak.xlsread (4 rule sets, every ordered pair of their small title rows).
   mixin  : the declarative spelling (class with the TableReader mixin: ATTR_RULES, STOP_ON, LADDER_FORMAT) for two
            rule sets x their title rows x every blank pattern of <= 2 data rows x the three modes.
+  classes: reader classes with the TableReader mixin: a base class, a subclass overriding ATTR_RULES (other title,
+           converter, default; optionally STOP_ON), a subclass of that overriding nothing, an unrelated class; every
+           sequence of <= 3 reads over the four classes (84) x 8 sheets (optional columns present / absent,
+           column order) x {plain, subclass STOP_ON='blank first', base LADDER_FORMAT=True}, each from freshly loaded module and classes.
   cells  : every documented raw value of every cell type, whitespace variants of blank cells / titles.
 """
 
@@ -64,6 +68,8 @@ REQUIRED_FEATURES = [
     "ladder:filled", "ladder:blank-after-first-nonblank", "ladder:multi-row-chain", "ladder:fill-across-range",
     "type:int", "type:str", "type:bool", "type:list", "type:set", "objects:two-per-row", "keys:two",
     "cells:whitespace-blank", "outside-domain", "seq:two-reads", "via:table-reader-mixin",
+    "classes:subclass-after-base", "classes:base-after-subclass", "classes:unrelated-class-between",
+    "classes:rules-inherited-unchanged",
 ]
 
 
@@ -99,6 +105,18 @@ RULESETS = {
         {"num_id": 1, "attrs": [_p("id", "Id", "int"), {"name": "grades", "kind": "range", "type": "dict:int"}]},
         {"num_id": 1, "attrs": [_p("name", "Name", "str"), _p("score", "Score", "int")]}]},
 }
+# reader classes of the 'classes' family: TrBase(XlsObject, TableReader); TrSub(TrBase) overrides ATTR_RULES (other
+# title, other converter, other default); TrSub2(TrSub) overrides nothing; TrOther is unrelated.
+RULESETS["tr_base"] = {"objects": [{"num_id": 1, "attrs": [
+    _p("id", "Id", "int"), _p("name", "Name", "str"), _p("opt", "Opt", "int", default=42)]}]}
+RULESETS["tr_sub"] = {"objects": [{"num_id": 1, "attrs": [
+    _p("id", "Id", "int"), _p("name", "Full name", "str"), _p("opt", "Tags", "list", default=0)]}]}
+RULESETS["tr_other"] = {"objects": [{"num_id": 1, "attrs": [
+    _p("id", "Key", "int"), _p("name", "Name", "str"),
+    {"name": "opt", "kind": "external", "default": 7, "spelling": "tuple"}]}]}
+TR_RULESET = {"base": "tr_base", "sub": "tr_sub", "sub2": "tr_sub", "other": "tr_other"}
+_TR = {}          # name -> real class, set by run_classes for the duration of one case
+
 LAYOUT_RULESETS = ["plain3", "optional", "external", "rdict", "rset", "twokey", "lists", "rdictopt", "nokey",
                    "twoobj"]
 ROWS_RULESETS = ["plain2", "twokey", "rdict", "rset", "nokey", "optional", "rdictopt"]
@@ -118,6 +136,19 @@ def _real(rsname):
     for k, o in enumerate(RULESETS[rsname]["objects"]):
         cls = type(f"Xl_{rsname}_{k}", (xr.XlsObject,),
                    {"_ATTRS": [a["name"] for a in o["attrs"]], "_NUM_ID_ATTRS": o["num_id"]})
+        rules = _rules_from_spec(o, xr, types)
+        out.append((cls, rules))
+    _REAL[rsname] = out
+    return out
+
+
+def _cell_types(xr):
+    return {"int": xr.cell_int, "str": xr.cell_str, "bool": xr.cell_bool, "list": xr.cell_list,
+            "set": xr.cell_set, "list0": xr.CellList(none_values=[])}
+
+
+def _rules_from_spec(o, xr, types):
+    if True:
         rules = {}
         for a in o["attrs"]:
             if a["kind"] == "plain":
@@ -137,15 +168,15 @@ def _real(rsname):
                     rules[a["name"]] = ("*", reader, {"default_val": a["default"]})
                 else:
                     rules[a["name"]] = ("*", reader)
-        out.append((cls, rules))
-    _REAL[rsname] = out
-    return out
+        return rules
 
 
 def real_read(rsname, grid, stop_on, ladder, via="function"):
     """-> list of rows, each a list with one entry (object or None) per object of the rule set."""
     from ak import xlsread as xr
     ws = X.FakeSheet("sheet1", grid)
+    if via.startswith("tr:"):
+        return [[o] for o in _TR[via[3:]].read_list(ws)]
     real = _real(rsname)
     if via == "mixin":
         # the declarative spelling: a class with the TableReader mixin carrying rules and table options
@@ -441,6 +472,20 @@ def judge(case, acc):
     return feats, label, nontrivial, viol
 
 
+def _reads_as_default_options(case):
+    """Does the reader class give what the default options ('blank all', plain) would give for this sheet?"""
+    grid = make_grid(case)
+    try:
+        as_default, _ = X.reference_read(grid, RULESETS[case["rs"]], "blank all", False)
+        got = real_read(case["rs"], grid, case["stop_on"], bool(case["ladder"]), case["via"])
+        return len(got) == len(as_default) and all(
+            (g[0] is None) == (e[0] is None) and
+            (g[0] is None or all(X.same(getattr(g[0], n), e[0][n][0]) for n in e[0]))
+            for g, e in zip(got, as_default))
+    except Exception:  # noqa
+        return False
+
+
 _PRIORITY = ["raises", "row-count", "none-row", "value", "range-key-origin", "range-origin-order",
              "range-origin-descr", "origin:", "origin-incl-ws", "ladder-"]
 
@@ -466,18 +511,7 @@ def run_case(case, acc, count=True):
         sig, msg, obs, exp = min(viol, key=lambda v: _prio(v[0]))
         if case.get("via") == "mixin":
             # does the mixin read the sheet as if the class declared the default options?
-            from mc import core
-            grid = make_grid(case)
-            try:
-                as_default, _ = X.reference_read(grid, RULESETS[case["rs"]], "blank all", False)
-                got = real_read(case["rs"], grid, case["stop_on"], bool(case["ladder"]), "mixin")
-                same_as_default = len(got) == len(as_default) and all(
-                    (g[0] is None) == (e[0] is None) and
-                    (g[0] is None or all(X.same(getattr(g[0], n), e[0][n][0]) for n in e[0]))
-                    for g, e in zip(got, as_default))
-            except Exception:  # noqa
-                same_as_default = False
-            sig = "mixin-ignores-class-options" if same_as_default else sig + ":mixin"
+            sig = "mixin-ignores-class-options" if _reads_as_default_options(case) else sig + ":mixin"
             msg = "TableReader.read_list with STOP_ON / LADDER_FORMAT declared on the class: " + msg
         elif case["ladder"] and sig.endswith(":ladder"):
             # ladder-specific only if the same sheet read as a plain table does not show the same disagreement
@@ -511,7 +545,7 @@ def bounds(tier):
 
 def shards(tier):
     b = _bounds(tier)
-    out = [("cells",), ("mixin",), ("seq", "plain2"), ("seq", "rdict"), ("seq", "optional"), ("seq", "rdictopt")]
+    out = [("cells",), ("mixin",)] + [("classes", k, 6) for k in range(6)] + [("seq", "plain2"), ("seq", "rdict"), ("seq", "optional"), ("seq", "rdictopt")]
     for n in LAYOUT_RULESETS:
         nt = len(title_rows(RULESETS[n], b["layout_maxlen"]))
         step = 1 if nt < 600 else (4 if nt < 4000 else 16)
@@ -541,6 +575,9 @@ def run_shard(shard, tier, seed, acc):
         return
     if kind == "mixin":
         _mixin_block(acc)
+        return
+    if kind == "classes":
+        _classes_block(acc, shard[1], shard[2])
         return
     if kind == "layout":
         _, n, anchor, k, step = shard
@@ -701,7 +738,117 @@ def _mixin_block(acc):
                                   "ladder": ladder, "via": "mixin"}, acc)
 
 
+TR_COLUMNS = ["Id", "Name", "Full name", "Tags", "Opt", "Key"]
+TR_DATA = [[1, "n0", "f0", "a,b", 5, 11], [None, "n1", "f1", None, None, 12], [3, "n2", "f2", "c", 7, 13]]
+
+
+def _tr_sheets():
+    out = []
+    for drop in ((), ("Opt",), ("Tags",), ("Opt", "Tags")):
+        for rev in (False, True):
+            idx = [i for i, t in enumerate(TR_COLUMNS) if t not in drop]
+            if rev:
+                idx = idx[::-1]
+            out.append([[TR_COLUMNS[i] for i in idx]] + [[row[i] for i in idx] for row in TR_DATA])
+    return out
+
+
+def _tr_build(opts):
+    """Fresh ak.xlsread, fresh classes.  opts = {"base_ladder": 0|1, "sub_stop": "-"|"blank first"}"""
+    _pristine()
+    from ak import xlsread as xr
+    types = _cell_types(xr)
+    attrs = {"_ATTRS": ["id", "name", "opt"], "_NUM_ID_ATTRS": 1}
+    base = type("TrBase", (xr.XlsObject, xr.TableReader),
+                dict(attrs, ATTR_RULES=_rules_from_spec(RULESETS["tr_base"]["objects"][0], xr, types),
+                     LADDER_FORMAT=bool(opts["base_ladder"])))
+    sub_ns = {"ATTR_RULES": _rules_from_spec(RULESETS["tr_sub"]["objects"][0], xr, types)}
+    if opts["sub_stop"] != "-":
+        sub_ns["STOP_ON"] = opts["sub_stop"]
+    sub = type("TrSub", (base,), sub_ns)
+    sub2 = type("TrSub2", (sub,), {})
+    other = type("TrOther", (xr.XlsObject, xr.TableReader),
+                 dict(attrs, ATTR_RULES=_rules_from_spec(RULESETS["tr_other"]["objects"][0], xr, types)))
+    _TR.clear()
+    _TR.update({"base": base, "sub": sub, "sub2": sub2, "other": other})
+
+
+def _tr_subcase(case, name):
+    opts = case["classes"]
+    if name == "other":
+        stop_on, ladder = "blank all", 0
+    else:
+        ladder = opts["base_ladder"]                        # inherited by the subclasses
+        stop_on = opts["sub_stop"] if (name != "base" and opts["sub_stop"] != "-") else "blank all"
+    return {"rs": TR_RULESET[name], "anchor": 0, "lead": 0, "rows": case["rows"], "stop_on": stop_on,
+            "ladder": ladder, "via": "tr:" + name}
+
+
+def run_classes(case, acc, count=True):
+    """Reads through several TableReader classes one after the other (base class, a subclass overriding
+    ATTR_RULES, a subclass of that, an unrelated class) from pristine module state: every class must be read
+    with the rules and options declared for it, whatever was read before."""
+    from mc import core
+    reads = case["reads"]
+    _tr_build(case["classes"])
+    feats = {"classes:reader-class-sequence"}
+    for a, b in zip(reads, reads[1:]):
+        if a == "base" and b in ("sub", "sub2"):
+            feats.add("classes:subclass-after-base")
+        if a in ("sub", "sub2") and b == "base":
+            feats.add("classes:base-after-subclass")
+        if "other" in (a, b) and a != b:
+            feats.add("classes:unrelated-class-between")
+    if "sub2" in reads:
+        feats.add("classes:rules-inherited-unchanged")
+    report = None
+    for pos, name in enumerate(reads):
+        acc.trans()
+        f, _label, _nt, v = judge(_tr_subcase(case, name), core.Acc())
+        feats |= {x for x in f if x.startswith(("attr:", "mode:", "ladder:", "row:"))}
+        if v:
+            sig, msg, obs, exp = min(v, key=lambda t: _prio(t[0]))
+            _tr_build(case["classes"])
+            alone = judge(_tr_subcase(case, name), core.Acc())[3]
+            if alone:
+                if _reads_as_default_options(_tr_subcase(case, name)):
+                    sig = "mixin-ignores-class-options"
+                else:
+                    sig += ":reader-class"
+                report = (sig, f"class '{name}' read alone: " + msg, obs, exp)
+            else:
+                report = ("class-sequence:" + sig.split(":")[0],
+                          f"class '{name}' read after {reads[:pos]}: " + msg, obs, exp)
+            break
+    _TR.clear()
+    _REAL.clear()
+    if count:
+        acc.case(nontrivial=len(reads) >= 2, features=sorted(feats),
+                 outcome="classes:ok" if report is None else "violation:" + report[0])
+    if report is not None:
+        acc.violation("C18:" + report[0], case, report[1], report[2], report[3])
+    return report
+
+
+def _classes_block(acc, k, step):
+    import itertools
+    names = ["base", "sub", "sub2", "other"]
+    seqs = [list(t) for ln in (1, 2, 3) for t in itertools.product(names, repeat=ln)]
+    for reads in seqs[k::step]:
+        for rows in _tr_sheets():
+            # (ladder + 'blank first' is outside the domain, see ASSUMPTIONS)
+            for base_ladder, sub_stop in ((0, "-"), (0, "blank first"), (1, "-")):
+                if True:
+                    run_classes({"classes": {"base_ladder": base_ladder, "sub_stop": sub_stop}, "reads": reads,
+                                 "rows": rows}, acc)
+        if acc.expired():
+            return
+
+
 def replay(case, acc):
+    if "reads" in case:
+        run_classes(case, acc)
+        return
     if "seq" in case:
         run_seq(case, acc)
         return
